@@ -136,6 +136,76 @@ def run(ctx):
                     cases.append(("JDesCompact97 %s %s %s %s %s %s" % (J.c_table(rows), c_hex(tok), J.c_keysrc(pub_key), c_opt(None if safe else pl, c_hex),
                                                                       J.c_algs([alg]), J.c_compact_result(r)),
                                   {"fn": "deserialize_compact97", "what": alg}))
+        # ---------- PS* parameters on signatures made with pyca directly: joserfc and the reference must agree
+        from cryptography.hazmat.primitives.asymmetric import padding as _pad
+        from cryptography.hazmat.primitives import hashes as _hs0
+        HC0 = {"sha256": _hs0.SHA256, "sha384": _hs0.SHA384, "sha512": _hs0.SHA512}
+        rsa_prv = K["rsa"].private_key
+        rsa_pubjwk = K["rsa"].as_dict(private=False)
+        rsa_pubkey = J.pubkey_of(K["rsa"])
+        for name, hn in (("PS256", "sha256"), ("PS384", "sha384"), ("PS512", "sha512")):
+            hl = HC0[hn].digest_size
+            for salt in (0, 8, hl - 1, hl, hl + 1, "max"):
+                for mgf in HC0:
+                    if ctx.quick and mgf != hn and salt not in (hl, 0):
+                        continue
+                    si = (REF.b64u_enc(('{"alg":"%s"}' % name).encode()) + "." + REF.b64u_enc(b"pss")).encode()
+                    sl = _pad.PSS.MAX_LENGTH if salt == "max" else salt
+                    sig = rsa_prv.sign(si, _pad.PSS(mgf=_pad.MGF1(HC0[mgf]()), salt_length=sl), HC0[hn]())
+                    tok = si.decode() + "." + REF.b64u_enc(sig)
+                    ctx.note_case(("pss-matrix", name, salt, mgf))
+                    note("pss-matrix:%s" % ("rfc" if (salt == hl and mgf == hn) else "other"))
+                    ref = call(REF.verify_compact, tok, rsa_pubjwk)
+                    r = call(jws.deserialize_compact, tok, rsa_pubkey, [name])
+                    rec.take()
+                    if (ref[0] == "ok") != (r[0] == "ok") or (ref[0] == "ok") != (salt == hl and mgf == hn):
+                        ctx.violation({"kind": "pss-params", "alg": name, "salt": str(salt), "mgf": mgf},
+                                      "%s signature with salt length %s and MGF1-%s: reference %s, joserfc %s" % (
+                                          name, salt, mgf, "accepts" if ref[0] == "ok" else "rejects", "accepts" if r[0] == "ok" else "rejects (%r)" % (r[1],)),
+                                      {"dir": "reference->joserfc", "token": tok, "key": rsa_pubjwk, "alg": name})
+        # ---------- "yield the same payload and HEADER": verifier key forms x tokens with / without kid
+        from joserfc.errors import InvalidKeyIdError
+        for alg, kn in (("HS256", "oct32"), ("ES256", "p256"), ("EdDSA", "ed25519"), ("RS256", "rsa"), ("PS256", "rsa")):
+            prv_jwk, pub_jwk = jwks(kn)
+            pub_key = J.pubkey_of(K[kn])
+            other = J.pubkey_of(K["p384"] if kn != "p384" else K["p256"])
+            same_t = J.other_key_same_type(kn)
+            for with_kid in (False, True):
+                h = {"alg": alg, "typ": "JWT"}
+                if with_kid:
+                    h["kid"] = kn
+                sp = REF.header_spellings(h, rng)
+                tok = REF.sign_compact(alg, prv_jwk, sp[rng.randrange(len(sp))], b"header-equality").encode()
+                val = REF.sign_flattened(alg, prv_jwk, sp[0], None, b"header-equality")
+                forms = [("key", pub_key, "ok"), ("set1", KeySet([pub_key]), "ok"),
+                         ("set-several", KeySet([other, pub_key] + ([J.pubkey_of(K[same_t])] if same_t else [])), "ok" if with_kid else "nokid"),
+                         ("callable", (lambda obj, _p=pub_key: _p), "ok"), ("callable-set1", (lambda obj, _p=KeySet([pub_key]): _p), "ok")]
+                for fname, vkey, expect in forms:
+                    ctx.note_case(("hdr-eq", alg, with_kid, fname))
+                    note("header-equality:%s" % fname)
+                    rec.take()
+                    r = call(jws.deserialize_compact, tok, vkey, [alg])
+                    rows, _ = rec.take()
+                    vobj = vkey(None) if callable(vkey) else vkey
+                    cases.append(("JDesCompact %s %s %s %s %s" % (J.c_table(rows), c_hex(tok), J.c_keysrc(vobj), J.c_algs([alg]), J.c_compact_result(r)),
+                                  {"fn": "deserialize_compact", "what": "hdreq-%s:%s:%s" % (alg, fname, with_kid)}))
+                    rj = call(jws.deserialize_json, copy.deepcopy(val), vkey, [alg])
+                    rec.take()
+                    rp = {"dir": "reference->joserfc", "token": tok.decode(), "key": pub_jwk, "alg": alg, "form": fname}
+                    if expect == "ok":
+                        if r[0] != "ok" or r[1].payload != b"header-equality" or r[1].protected != h:
+                            ctx.violation({"kind": "header-equality", "form": fname, "kid": with_kid},
+                                          "verifying a reference-signed token (%s, kid %s) with the key given as %s: %r — the header returned must EQUAL the signed header %r" % (
+                                              alg, "present" if with_kid else "absent", fname, r[1] if r[0] != "ok" else r[1].protected, h), rp)
+                        if rj[0] != "ok" or rj[1].members[0].protected != h or rj[1].members[0].headers() != h:
+                            ctx.violation({"kind": "header-equality", "form": fname, "kid": with_kid, "ser": "flat"},
+                                          "flattened JSON: %r" % (rj[1] if rj[0] != "ok" else rj[1].members[0].headers(),), rp)
+                    else:
+                        if r[0] != "err" or not isinstance(r[1], InvalidKeyIdError) or rj[0] != "err" or not isinstance(rj[1], InvalidKeyIdError):
+                            ctx.violation({"kind": "header-equality", "form": fname, "kid": with_kid},
+                                          "a kid-less token against a key set with several keys must be the deterministic InvalidKeyIdError, got %r / %r" % (
+                                              r[1] if r[0] != "ok" else r[1].protected, rj[1]), rp)
+
         # ---------- reference-signed tokens over HISTORIES: batches (extract all, validate all, both
         # orders) and key callables that verify OTHER reference-signed tokens before returning the key;
         # each reference token must verify to its own payload (compact and rfc7797 compact)
